@@ -4,6 +4,7 @@ import (
 	"fmt"
 	"go/token"
 	"go/types"
+	"strings"
 
 	"golang.org/x/tools/go/callgraph"
 	"golang.org/x/tools/go/ssa"
@@ -778,4 +779,73 @@ func ruleVariantDescends(c *Ctx, r *Report) {
 		r.ok(rule, key, c.at(cmpBlock.Instrs[len(cmpBlock.Instrs)-1]), desc, "node-removal check: without the loop over the arguments the pair cannot get back to the work list", true)
 	}
 	r.analysed(rule, fname(fn))
+}
+
+// ---------------------------------------------------------------------------
+// R-COPY-ALL-PARTS (C11, C10; added after seed C11j): "each collected instance is a renamed copy of its own": every
+// part of it. In renamedCopy, whatever term is put INTO a structure of the result - an element of a new list or
+// argument vector, a field of a new compound or partial list, the cell a partial list's tail points to - is the
+// result of a recursive renamedCopy call. A part taken from the input as it stands (an unbound tail variable "that
+// needs no copying") is shared between the original and every copy made of it.
+func ruleCopyAllParts(c *Ctx, r *Report) {
+	const rule = "R-COPY-ALL-PARTS"
+	desc := "every term stored into a structure of the copy is itself a copy"
+	fn := c.fn("renamedCopy")
+	if fn == nil {
+		r.undecided(rule, "anchor:renamedCopy", "-", desc, "not found")
+		return
+	}
+	isTermIface := func(t types.Type) bool {
+		return isEngNamed(t, "Term") || isEngNamed(t, "Compound")
+	}
+	addressTaken := func(al *ssa.Alloc) bool {
+		for _, ref := range *al.Referrers() {
+			if st, ok := ref.(*ssa.Store); ok && st.Val == ssa.Value(al) {
+				return true
+			}
+		}
+		return false
+	}
+	n := 0
+	eachInstr(fn, func(in ssa.Instruction) {
+		st, ok := in.(*ssa.Store)
+		if !ok || !isTermIface(st.Val.Type()) || isPtr(st.Val.Type()) {
+			return
+		}
+		part := ""
+		switch a := st.Addr.(type) {
+		case *ssa.IndexAddr:
+			part = "an element"
+		case *ssa.FieldAddr:
+			if _, isAlloc := a.X.(*ssa.Alloc); isAlloc {
+				part = "the field " + fieldName(a)
+			}
+		case *ssa.Alloc:
+			if addressTaken(a) {
+				part = "the cell " + a.Comment
+			}
+		}
+		if part == "" {
+			return
+		}
+		n++
+		key := fmt.Sprintf("%s/store#%d(%s)", fname(fn), n, strings.TrimPrefix(part, "the "))
+		bad := ""
+		for _, l := range c.originSet(st.Val) {
+			if e, ok := l.(*ssa.Extract); ok && e.Index == 0 {
+				if call, ok := e.Tuple.(*ssa.Call); ok && call.Call.StaticCallee() == fn {
+					continue
+				}
+			}
+			bad = valName(l)
+		}
+		if bad == "" {
+			r.ok(rule, key, c.at(in), desc, "the result of a recursive renamedCopy call", true)
+		} else {
+			r.bad(rule, key, c.at(in), desc, part+" of the copy receives "+bad+", which is not a copy: that part (an unbound tail variable, say) is shared by the original and by every copy made of it - two collected solutions share one tail")
+		}
+	})
+	if n == 0 {
+		r.undecided(rule, fname(fn)+"/stores", c.Pos(fn.Pos()), desc, "no store of a term into a structure of the result found")
+	}
 }
